@@ -2,6 +2,7 @@ import Rare.Model.C09
 import Rare.Model.Expr.Std
 import Rare.Spec.C11
 import Rare.Spec.C17
+import Rare.Spec.C17Wrap
 /-!
 C09: the fragment of the STANDARD function table over which the print/compile round trip is proved
 (`print_compile_std_fragment`, `Rare/Props/C09.lean`; proofs in `Rare/Proofs/C09Frag.lean`).
@@ -216,6 +217,80 @@ def floatSem (op : F64 → F64 → F64) : List Bytes → Bytes
 
 def floatE (op : F64 → F64 → F64) : Entry := ⟨floatHelper op, fun n => 2 ≤ n, typedPre parseF, floatSem op, true⟩
 
+/-- An optional constant precision at position 1: absent, or a literal integer not above `maxPrecision`. -/
+def precPre : (C09.Expr → Bytes) → (C09.Expr → Bool) → List C09.Expr → Bool := fun _ _ args =>
+  match args with
+  | [_] => true
+  | [_, a1] => FA.litInt (fun n => decide (n ≤ maxPrecision)) a1
+  | _ => false
+
+def roundVal (v : Bytes) (precision : Int) : Bytes :=
+  match parseF v with
+  | none => ErrorNum
+  | some x => F64.format x precision
+
+/-- `{round v [precision=0]}` -/
+def roundSem : List Bytes → Bytes
+  | [v] => roundVal v 0
+  | [v, p] => match atoi p with
+    | some precision => roundVal v precision
+    | none => []
+  | _ => []
+
+def roundE : Entry := ⟨kfRound, fun n => n == 1 || n == 2, precPre, roundSem, true⟩
+
+def unitVal (unsigned : Bool) (step : Int) (delim : Bytes) (units : List String) (v : Bytes) (precision : Int) : Bytes :=
+  match (if unsigned then (atou v).map (fun n => wrap64 (Int.ofNat n)) else atoi v : Option Int) with
+  | none => ErrorNum
+  | some n => unitize n step precision delim units
+
+/-- `{bytesize v [precision=0]}`, `{bytesizesi …}`, `{downscale …}` -/
+def unitSem (unsigned : Bool) (step : Int) (delim : Bytes) (units : List String) : List Bytes → Bytes
+  | [v] => unitVal unsigned step delim units v 0
+  | [v, p] => match atoi p with
+    | some precision => unitVal unsigned step delim units v precision
+    | none => []
+  | _ => []
+
+def unitE (unsigned : Bool) (step : Int) (delim : Bytes) (units : List String) : Entry :=
+  ⟨unitHelper unsigned step delim units, fun n => n == 1 || n == 2, precPre, unitSem unsigned step delim units, true⟩
+
+def percentVal (v : Bytes) (mn mx : Option F64) (decimals : Int) : Bytes :=
+  match mn with
+  | none => ErrorNum
+  | some min => match mx with
+    | none => ErrorNum
+    | some max => match parseF v with
+      | none => ErrorNum
+      | some val => percentStr val min max decimals
+
+/-- `{percent val [decimals=1] [[min=0] max=1]}` -/
+def percentSem : List Bytes → Bytes
+  | [v] => percentVal v (some (F64.zero false)) (some F64.one) 1
+  | [v, d] => match atoi d with
+    | some dec => percentVal v (some (F64.zero false)) (some F64.one) dec
+    | none => []
+  | [v, d, mx] => match atoi d with
+    | some dec => percentVal v (some (F64.zero false)) (parseF mx) dec
+    | none => []
+  | [v, d, mn, mx] => match atoi d with
+    | some dec => percentVal v (parseF mn) (parseF mx) dec
+    | none => []
+  | _ => []
+
+def precLit (a : C09.Expr) : Bool := FA.litInt (fun n => decide (n ≤ maxPrecision)) a
+
+def percentPre : (C09.Expr → Bytes) → (C09.Expr → Bool) → List C09.Expr → Bool := fun ev dyn args =>
+  match args with
+  | [_] => true
+  | [_, d] => precLit d
+  | [_, d, mx] => precLit d && typedArg parseF ev dyn mx
+  | [_, d, mn, mx] => precLit d && typedArg parseF ev dyn mn && typedArg parseF ev dyn mx
+  | _ => false
+
+/-- (the stage evaluates `min`, `max` and only then the value: not "first argument first") -/
+def percentE : Entry := ⟨kfPercent, fun n => 1 ≤ n && n ≤ 4, percentPre, percentSem, false⟩
+
 end FF
 
 namespace FS
@@ -280,6 +355,48 @@ def joinE (d : Bytes) : Entry := ⟨kfJoin d, fun n => 1 ≤ n, noPre, joinSem d
 /-- `{csv a b …}`: the RFC 4180 record of the values (`csvRecord`; round trip in C11). -/
 def csvE : Entry := ⟨kfCsv, fun n => 1 ≤ n, noPre, csvRecord, true⟩
 
+/-- `{upper s}` / `{lower s}`: the model covers ASCII (anything else is Go's Unicode tables); the side
+    condition is that the argument is a literal of ASCII text. -/
+def casePre : (C09.Expr → Bytes) → (C09.Expr → Bool) → List C09.Expr → Bool := fun _ _ args =>
+  match args with
+  | [.lit s] => (utf8 s).all (· < 128)
+  | _ => false
+
+def caseE (f : UInt8 → UInt8) : Entry := ⟨caseHelper f, fun n => n == 1, casePre, mapSem fun v => v.map f, true⟩
+
+/-- `{repeat "text" n}` (the text is a constant) -/
+def repeatSem : List Bytes → Bytes
+  | [char, c] => match atoi c with
+    | none => ErrorNum
+    | some count =>
+      if count < 0 || (char.length > 0 && count > Int.tdiv maxRepeatBytes char.length) then ErrorValue
+      else if char.isEmpty then []
+      else repeatB char count.toNat
+  | _ => []
+
+def repeatPre : (C09.Expr → Bytes) → (C09.Expr → Bool) → List C09.Expr → Bool := fun _ _ args =>
+  match args with
+  | [.lit _, _] => true
+  | _ => false
+
+/-- (the stage runs its SECOND argument: not "first argument first") -/
+def repeatE : Entry := ⟨kfRepeat, fun n => n == 2, repeatPre, repeatSem, false⟩
+
+/-- `{lookup key "table text" ["comment prefix"]}` / `{haskey …}` with the table given as a constant. -/
+def lookupSem (render : Option Bytes → Bytes) : List Bytes → Bytes
+  | [k, content] => render (tableGet (buildLookupTable content []) k)
+  | [k, content, pfx] => render (tableGet (buildLookupTable content pfx) k)
+  | _ => []
+
+def lookupPre : (C09.Expr → Bytes) → (C09.Expr → Bool) → List C09.Expr → Bool := fun _ _ args =>
+  match args with
+  | [_, .lit _] => true
+  | [_, .lit _, .lit _] => true
+  | _ => false
+
+def lookupE (render : Option Bytes → Bytes) : Entry :=
+  ⟨lookupBuilder render, fun n => n == 2 || n == 3, lookupPre, lookupSem render, true⟩
+
 end FS
 
 namespace FR
@@ -320,6 +437,60 @@ def inPre : (C09.Expr → Bytes) → (C09.Expr → Bool) → List C09.Expr → B
 
 def inE : Entry := ⟨kfArrayIn, fun n => n == 2, inPre, inSem, true⟩
 
+/-- `{@select arr i}` with a constant index, on any list (`selectW`: the documented `select` below 2^63
+    elements, `C17.wrapped_is_documented`). -/
+def aselectSem : List Bytes → Bytes
+  | [arr, i] => match atoi i with
+    | some idx => selectW (elems arr) idx
+    | none => []
+  | _ => []
+
+def aselectPre : (C09.Expr → Bytes) → (C09.Expr → Bool) → List C09.Expr → Bool := fun _ _ args =>
+  match args with
+  | [_, a1] => FA.litInt (fun _ => true) a1
+  | _ => false
+
+def aselectE : Entry := ⟨kfArraySelect, fun n => n == 2, aselectPre, aselectSem, true⟩
+
+/-- `{@slice arr start [len]}` with constant indices, on any list (`sliceW`: `pack ∘ slice` below 2^63 elements). -/
+def asliceSem : List Bytes → Bytes
+  | [arr, s] => match atoi s with
+    | some start => sliceW (elems arr) start (-1)
+    | none => []
+  | [arr, s, l] => match atoi s, atoi l with
+    | some start, some len => sliceW (elems arr) start len
+    | _, _ => []
+  | _ => []
+
+def aslicePre : (C09.Expr → Bytes) → (C09.Expr → Bool) → List C09.Expr → Bool := fun _ _ args =>
+  match args with
+  | [_, a1] => FA.litInt (fun _ => true) a1
+  | [_, a1, a2] => FA.litInt (fun _ => true) a1 && FA.litInt (fun _ => true) a2
+  | _ => false
+
+def asliceE : Entry := ⟨kfArraySlice, fun n => n == 2 || n == 3, aslicePre, asliceSem, true⟩
+
+/-- `{@range [start=0] stop [incr=1]}` on the values of its arguments (closed form of C17's `range_spec_closed`). -/
+def rangeVal (a b c : Bytes) : Bytes :=
+  match atoi a with
+  | none => ErrorNum
+  | some start => match atoi b with
+    | none => ErrorNum
+    | some stop => match atoi c with
+      | none => ErrorNum
+      | some incr =>
+        if incr = 0 ∨ (incr > 0 ∧ start > stop) ∨ (incr < 0 ∧ start < stop) then ErrorValue
+        else if rangeCount start stop incr ≤ Gen.maxIterations then pack ((range start stop incr).map itoa)
+        else InfMarker
+
+def rangeSem : List Bytes → Bytes
+  | [b] => rangeVal (ascii "0") b (ascii "1")
+  | [a, b] => rangeVal a b (ascii "1")
+  | [a, b, c] => rangeVal a b c
+  | _ => []
+
+def arangeE : Entry := ⟨kfArrayRange, fun n => 1 ≤ n && n ≤ 3, noPre, rangeSem, false⟩
+
 end FR
 
 open Funcs in
@@ -350,7 +521,13 @@ def fragTable : List (String × Entry) := [
   ("tab", FS.joinE [9]), ("$", FS.joinE [0]), ("@", FS.joinE [0]),
   ("csv", FS.csvE), ("hi", FS.hiE),
   ("basename", FS.pathE Misc.pathBase), ("dirname", FS.pathE Misc.pathDir), ("extname", FS.pathE Misc.pathExt),
-  ("@len", FR.alenE), ("@split", FR.splitE), ("@join", FR.ajoinE), ("@in", FR.inE)]
+  ("@len", FR.alenE), ("@split", FR.splitE), ("@join", FR.ajoinE), ("@in", FR.inE),
+  ("@select", FR.aselectE), ("@slice", FR.asliceE), ("@range", FR.arangeE),
+  ("upper", FS.caseE Strings.upperB), ("lower", FS.caseE Strings.lowerB), ("repeat", FS.repeatE),
+  ("lookup", FS.lookupE fun r => r.getD []), ("haskey", FS.lookupE fun r => truthyStr r.isSome),
+  ("round", FF.roundE), ("percent", FF.percentE),
+  ("bytesize", FF.unitE true 1024 [32] Strings.iecSizes), ("bytesizesi", FF.unitE true 1000 [32] Strings.siSizes),
+  ("downscale", FF.unitE false 1000 [] Strings.unitSize)]
 
 def fragLookup (n : String) : Option Entry := (fragTable.find? (·.1 == n)).map (·.2)
 
